@@ -269,6 +269,28 @@ Theorem C03_epochs_start_stop : forall ua ss u0 ps u1 sc,
   XOk (mk_epochs ss ps sc (mk_tarr [0] (ua_unit ua Us) true) (ua_unit ua u0)).
 Proof. exact epochs_start_stop. Qed.
 
+(* Epochs(...)[key] (integer, slice, list, boolean mask): the selection keeps the offset and the unit;
+   an integer gives the scalar epoch of that Python position; a 0-d epoch cannot be indexed;
+   during() with an indexed epoch still starts its time axis at the original offset *)
+Theorem C03_epochs_getitem_keeps_offset : forall e k e', epochs_getitem e k = XOk e' ->
+  e_offset e' = e_offset e /\ e_unit e' = e_unit e.
+Proof. exact epochs_getitem_keeps. Qed.
+Print Assumptions C03_epochs_getitem_keeps_offset.
+Theorem C03_epochs_getitem_int : forall e z e', length (e_stop e) = length (e_start e) ->
+  epochs_getitem e (EInt z) = XOk e' ->
+  exists i s p, py_index (length (e_start e)) z = Some i /\ nth_error (e_start e) i = Some s /\
+    nth_error (e_stop e) i = Some p /\ e' = mk_epochs [s] [p] true (e_offset e) (e_unit e).
+Proof. exact epochs_getitem_int. Qed.
+Theorem C03_epochs_getitem_scalar_refused : forall e k, e_scalar e = true -> epochs_getitem e k = XErr XIndex.
+Proof. exact epochs_getitem_scalar_refused. Qed.
+Theorem C03_series_during_t0 : forall A (s : series A) e r, series_during s e = XOk r ->
+  d_t0 r = head_ps (e_offset e) /\ d_dt r = s_dt s /\ d_unit r = s_unit s.
+Proof. exact @series_during_t0. Qed.
+Theorem C03_series_during_indexed_t0 : forall A (s : series A) e k e' r,
+  epochs_getitem e k = XOk e' -> series_during s e' = XOk r -> d_t0 r = head_ps (e_offset e).
+Proof. exact @series_during_indexed_t0. Qed.
+Print Assumptions C03_series_during_indexed_t0.
+
 (* ------------------------------------------------------------------ non-vacuity: the hypotheses are met by
    concrete non-trivial inputs (negative t0, 7 ps interval, queries in another unit, duplicates,
    2-d data) *)
@@ -327,3 +349,11 @@ Example C03_ex_epochs :
                         None (Some (DTime (mk_tarr [4] Uns true))) UArgNone)
   = XOk (mk_epochs [1500; 2500] [1504; 2504] false (mk_tarr [-500] Ups true) Uns).
 Proof. vm_compute. reflexivity. Qed.
+Definition ex_eps : epochs := mk_epochs [-7; 0; 7] [1; 8; 15] false (mk_tarr [-3] Ups true) Ups.
+Example C03_ex_epochs_getitem :
+  epochs_getitem ex_eps (EInt (-2)) = XOk (mk_epochs [0] [8] true (mk_tarr [-3] Ups true) Ups)
+  /\ epochs_getitem ex_eps (ESlice (Some 1) None) = XOk (mk_epochs [0; 7] [8; 15] false (mk_tarr [-3] Ups true) Ups)
+  /\ epochs_getitem ex_eps (EMask [true; false; true]) = XOk (mk_epochs [-7; 7] [1; 15] false (mk_tarr [-3] Ups true) Ups)
+  /\ series_during ex_series (mk_epochs [0] [8] true (mk_tarr [-3] Ups true) Ups)
+     = XOk (mk_dout (DOne [[1; 11]; [2; 12]]) (-3) 7 Ups).
+Proof. repeat split; vm_compute; reflexivity. Qed.
